@@ -1,8 +1,11 @@
 #!/bin/sh
 # apply every kept seeded change in turn, run its property's quick check (must exit 1), restore /repo
 cd /verif
+# a mutant can leave the solver stuck (it ignores its resource limit on some non-linear queries): the wall-clock safety net, which
+# never produces a verdict, is kept short here so that the whole re-test fits in an hour
+PYVC_WALL_FACTOR=${PYVC_WALL_FACTOR:-3}; PYVC_WALL_SLACK=${PYVC_WALL_SLACK:-20}; export PYVC_WALL_FACTOR PYVC_WALL_SLACK
 for d in seeded/*/; do
-  id=$(basename $d); prop=$(python3 -c "import json;print(json.load(open('$d/meta.json'))['breaks_property'])")
+  id=$(basename $d); case " $SKIP " in *" $id "*) continue;; esac; prop=$(python3 -c "import json;print(json.load(open('$d/meta.json'))['breaks_property'])")
   cd /repo; git diff --quiet || { echo "repo dirty"; exit 3; }
   if ! git apply --check /verif/$d/patch.diff 2>/dev/null; then echo "$id: PATCH DOES NOT APPLY"; cd /verif; continue; fi
   git apply /verif/$d/patch.diff
